@@ -483,15 +483,18 @@ class ispec(object):
         D = {}
         D["format"] = self.format
         D["module"] = self.hook.__module__
+        D["hook"] = self.hook.__name__
         return D
 
     def __setstate__(self, state):
         self.format = state["format"]
         modname = state["module"]
+        hookname = state.get("hook", None)
         m = importlib.import_module(modname)
         self.hook = None
         for h in m.ISPECS:
-            if h.format == self.format:
+            # several specs can share a format (they differ by precondition and hook):
+            if h.format == self.format and hookname in (None, h.hook.__name__):
                 self.hook = h.hook
                 break
 
